@@ -12,6 +12,7 @@ func init() {
 			"(1-5 writable + 0-2 read-only, disk|proxy, loaded with LoadKeepServicesFromJSON; wanted 1-3; Retries 0-3; per service and attempt an outcome from " +
 			"{200 rep 1, 200 rep 2, 200 no header, 400, 403, 408, 429, 500, 502, 503, connection error before/after the body, slow}); " +
 			"stream enum = EVERY outcome assignment for 1 and 2 writable services (see notes: exhaustive:true for that sub-space only), stream random = beyond; " +
+			"stream refresh = multi-step cases on ONE KeepClient: a services list is loaded (LoadKeepServicesFromJSON, or discovery from a stub keep_services/accessible API whose answer is replaced and refreshed between steps), optionally used for a Put, then a refreshed list with the same uuids/addresses but flipped read_only / service_type flags (contrast: same flags, one service less), then a Put judged against the list loaded LAST; " +
 			"oracle U1-U7 over the log of requests received/answers given by the fake services vs (locator, replicas, err); " +
 			"non-trivial = some answer other than '200 rep 1' was given or the Put is a wrong-hash/oversize PutHR; " +
 			"distinct = distinct (#writable, #read-only, disk/proxy class, wanted, retries, API, ok|fail, set of first-attempt outcomes that fired, highest attempt reached)",
